@@ -53,6 +53,17 @@ def main(path):
             print("C02 oracle:", rt.check_valid(cd) if "DONE" in log else "n/a")
             print("ovniemu   :", rt.emu_accepts(build)(cd) if "DONE" in log else "n/a")
             return 0
+        if eng.startswith("E1 many_threads"):
+            from checks import rt
+            from . import emusrv
+            exe = build.harness("san", "many_threads", ["many_threads.c"], extra=['-DVERIF_OVNI_C="%s"' % os.path.join(REPO, "src/rt/ovni.c")])
+            cd = sc.sub("case")
+            x = subprocess.run([exe, cd, str(r["threads"])], stdout=subprocess.PIPE, stderr=subprocess.PIPE)
+            print("program exit:", x.returncode, x.stderr.decode("latin1")[-200:])
+            for nofile in (None, 40):
+                rc, out, err = emusrv.run_tool(build.tool("plain", "ovniemu"), ["-l", os.path.join(cd, "trace")], nofile=nofile)
+                print("ovniemu -l (descriptors allowed: %s): exit %r | %s" % (nofile or "default", rc, " / ".join(err.strip().split("\n")[-2:])[:300]))
+            return 0
         if eng.startswith("E2"):
             from checks import c11
             small = bool(r.get("small_buffer"))
